@@ -4,6 +4,7 @@ CONSTANTS
   PageSizes = {1}
   MaxMut = 0
   MaxTrav = 0
+  HiddenSets = {{}}
 CONSTRAINT TMark
 INVARIANTS ExactlyOnceNoMutation StableExactlyOnce StrictlyIncreasing NoDuplicates EndsWithEmptyCursor IndexFresh PageShape IteratorEqualsManual
 POSTCONDITION TAccepted
